@@ -412,3 +412,166 @@ Proof.
     + rewrite (b_drop_rep _ _ Hrep'). exists pre, None, (map Drop (zs n (length pre))). auto.
     + exists pre, (Some this'), []. rewrite app_nil_r. splits; auto.
 Qed.
+
+(* ------------------------------------------------------------------ one step *)
+
+(** identities leaked by an explicit [mem::forget] of a whole object *)
+Definition step_leak (w : world) (o : op) : list Z :=
+  match o with OForget k => obj_ids (get_obj w k) | _ => [] end.
+
+(** the identity created by a [push] (also when the push panics and drops it at once) *)
+Definition step_pushed (w : world) (o : op) : list Z :=
+  match o with
+  | OPush k => match get_obj w k with OB _ => [w_next w] | _ => [] end
+  | _ => []
+  end.
+
+(** what every step guarantees: the table stays well-formed, the counter only grows, and
+    (1) what the table owned before plus the identities created by the step = what the
+        step handed over or dropped + what the table owns afterwards + what it leaked;
+    (2) the identities created by the step are exactly its clone and push identities;
+    (3) its clone identities are fresh *)
+Definition step_post (w : world) (o : op) (w' : world) (ev : list event) : Prop :=
+  Forall obj_ok (w_objs w') /\ (w_next w <= w_next w')%Z /\
+  (forall i, occ (world_ids w) i + between (w_next w) (w_next w') i
+             = occ (accounted ev) i + occ (world_ids w') i + occ (step_leak w o) i) /\
+  (forall i, between (w_next w) (w_next w') i = occ (cloned ev) i + occ (step_pushed w o) i) /\
+  fresh_tr (w_next w) ev.
+
+Lemma post_set w o k o' ev :
+  Forall obj_ok (w_objs w) -> get_obj w k <> Gone -> obj_ok o' ->
+  cloned ev = [] -> step_pushed w o = [] ->
+  (forall i, occ (obj_ids (get_obj w k)) i
+             = occ (accounted ev) i + occ (obj_ids o') i + occ (step_leak w o) i) ->
+  step_post w o (set_obj w k o') ev.
+Proof.
+  intros Hall Hg Ho Hcl Hpu Heq.
+  destruct (set_obj_facts w k o' Hg Hall Ho) as [Hall' Hids].
+  unfold step_post. splits.
+  - exact Hall'.
+  - cbn. lia.
+  - intro i. cbn [set_obj w_next]. rewrite between_empty.
+    specialize (Hids i). specialize (Heq i). lia.
+  - intro i. cbn [set_obj w_next]. now rewrite between_empty, Hcl, Hpu.
+  - now apply fresh_tr_no_clone.
+Qed.
+
+(** a finished clone (new object appended) or a panicked one (everything cloned so far
+    dropped again): the accounting of both *)
+Lemma post_clone w k bomb (newo : option obj) pre tail :
+  world_ok w ->
+  match newo with
+  | Some o' => obj_ok o' /\ obj_ids o' = zs (w_next w) (length pre) /\ tail = []
+  | None => tail = map Drop (zs (w_next w) (length pre))
+  end ->
+  step_post w (OClone k bomb)
+    (mkW (match newo with Some o' => w_objs w ++ [o'] | None => w_objs w end)
+         (w_next w + Z.of_nat (length pre))%Z)
+    (cl_events pre (w_next w) ++ tail).
+Proof.
+  intros [Hall _] Hnew. unfold step_post. cbn [w_next w_objs step_leak step_pushed].
+  assert (Hcl : cloned (cl_events pre (w_next w) ++ tail) = zs (w_next w) (length pre)).
+  { rewrite cloned_app, cloned_cl. destruct newo as [o'|].
+    - destruct Hnew as [_ [_ ->]]. apply app_nil_r.
+    - rewrite Hnew, cloned_drops. apply app_nil_r. }
+  splits.
+  - destruct newo as [o'|]; [|assumption]. apply Forall_app. split; [assumption|].
+    constructor; [tauto | constructor].
+  - lia.
+  - intro i. rewrite accounted_app, accounted_cl, <- occ_zs. cbn [app]. unfold world_ids. cbn [w_objs].
+    destruct newo as [o'|].
+    + destruct Hnew as [_ [Hids ->]]. rewrite objs_ids_app. unfold objs_ids at 3. cbn [flat_map accounted].
+      rewrite app_nil_r, Hids, occ_app, !occ_nil. lia.
+    + rewrite Hnew, accounted_drops, !occ_nil. lia.
+  - intro i. rewrite Hcl, occ_zs, occ_nil. lia.
+  - apply fresh_tr_cl. destruct newo as [o'|].
+    + now destruct Hnew as [_ [_ ->]].
+    + rewrite Hnew. apply cloned_drops.
+Qed.
+
+Lemma step_ok w o : world_ok w ->
+  match step w o with
+  | StepUB => False
+  | StepInvalid => True
+  | StepOk w' _ ev => step_post w o w' ev
+  end.
+Proof.
+  intros Hok. pose proof Hok as [Hall [Hnd Hlt]].
+  destruct o as [k|k|k bomb|k|k|k|k|k]; cbn [step];
+    pose proof (get_obj_ok w k Hall) as Hobj;
+    destruct (get_obj w k) as [c|b|] eqn:Eg; try exact I;
+    assert (Hg : get_obj w k <> Gone) by (rewrite Eg; discriminate);
+    cbn [obj_ok] in Hobj; destruct Hobj as [live Hrep].
+  - (* next *)
+    destruct live as [|x r].
+    + rewrite (c_next_rep_nil _ Hrep). apply post_set; auto; [cbn; eauto|].
+      intro i. rewrite Eg. cbn. lia.
+    + destruct (c_next_rep_cons _ _ _ Hrep) as [c' [Hn [Hrep' _]]]. rewrite Hn.
+      apply post_set; auto; [cbn; eauto|].
+      intro i. rewrite Eg. cbn [obj_ids accounted step_leak].
+      rewrite (c_rep_ids _ _ Hrep), (c_rep_ids _ _ Hrep'), (occ_cons x r), occ_nil. lia.
+  - (* next_back *)
+    destruct (list_snoc_cases live) as [-> | [r [x ->]]].
+    + rewrite (c_next_back_rep_nil _ Hrep). apply post_set; auto; [cbn; eauto|].
+      intro i. rewrite Eg. cbn. lia.
+    + destruct (c_next_back_rep_snoc _ _ _ Hrep) as [c' [Hn [Hrep' _]]]. rewrite Hn.
+      apply post_set; auto; [cbn; eauto|].
+      intro i. rewrite Eg. cbn [obj_ids accounted step_leak].
+      rewrite (c_rep_ids _ _ Hrep), (c_rep_ids _ _ Hrep'), occ_app, occ_nil. lia.
+  - (* clone of a consumer *)
+    destruct (c_clone_spec c live (w_next w) bomb Hrep) as [pre [oc [tail [E [_ Hoc]]]]].
+    rewrite E. destruct oc as [c'|].
+    + destruct Hoc as [Hrep' [_ Ht]].
+      apply (post_clone w k bomb (Some (OC c')) pre tail Hok). splits; [cbn; eauto | | assumption].
+      cbn. apply (c_rep_ids _ _ Hrep').
+    + apply (post_clone w k bomb None pre tail Hok). assumption.
+  - (* clone of a builder *)
+    destruct (b_clone_spec b live (w_next w) bomb Hrep) as [pre [ob [tail [E [_ Hob]]]]].
+    rewrite E. destruct ob as [b'|].
+    + destruct Hob as [Hrep' [_ Ht]].
+      apply (post_clone w k bomb (Some (OB b')) pre tail Hok). splits; [cbn; eauto | | assumption].
+      cbn. apply (b_rep_ids _ _ Hrep').
+    + apply (post_clone w k bomb None pre tail Hok). assumption.
+  - (* drop of a consumer *)
+    cbn [obj_drop]. rewrite (c_drop_rep _ _ Hrep). apply post_set; auto; [exact I | apply cloned_drops |].
+    intro i. rewrite Eg, accounted_drops. cbn [obj_ids step_leak]. rewrite (c_rep_ids _ _ Hrep), !occ_nil. lia.
+  - (* drop of a builder *)
+    cbn [obj_drop]. rewrite (b_drop_rep _ _ Hrep). apply post_set; auto; [exact I | apply cloned_drops |].
+    intro i. rewrite Eg, accounted_drops. cbn [obj_ids step_leak]. rewrite (b_rep_ids _ _ Hrep), !occ_nil. lia.
+  - (* assert_is_empty *)
+    unfold c_is_empty. destruct (c_rep_len _ _ Hrep) as [_ ->].
+    destruct live as [|x r]; cbn [length Nat.eqb].
+    + apply post_set; auto; [exact I|].
+      intro i. rewrite Eg. cbn [obj_ids]. rewrite (c_rep_ids _ _ Hrep). cbn. lia.
+    + rewrite (c_drop_rep _ _ Hrep). apply post_set; auto; [exact I | apply cloned_drops |].
+      intro i. rewrite Eg, accounted_drops. cbn [obj_ids step_leak].
+      rewrite (c_rep_ids _ _ Hrep), !occ_nil. lia.
+  - (* forget of a consumer *)
+    apply post_set; auto; exact I.
+  - (* forget of a builder *)
+    apply post_set; auto; exact I.
+  - (* push *)
+    destruct (Nat.eq_dec (length live) (b_cap b)) as [Hfull | Hroom].
+    + rewrite (b_push_rep_full b live (w_next w) Hrep Hfull).
+      unfold step_post. cbn [w_next w_objs step_leak step_pushed accounted cloned fresh_tr].
+      rewrite Eg. splits; [assumption | lia | | | exact I].
+      * intro i. unfold world_ids. cbn [w_objs]. rewrite between_one, occ_nil. lia.
+      * intro i. rewrite between_one, occ_nil. lia.
+    + destruct Hrep as [Hi [Hs Hle]].
+      destruct (b_push_rep_room b live (w_next w) (conj Hi (conj Hs Hle))) as [b' [Hp [Hrep' _]]]; [lia|].
+      rewrite Hp.
+      destruct (set_obj_facts w k (OB b') Hg Hall) as [Hall' Hids]; [cbn; eauto|].
+      unfold step_post. cbn [w_next w_objs step_leak step_pushed accounted cloned fresh_tr].
+      rewrite Eg. splits; [exact Hall' | lia | | | exact I].
+      * intro i. specialize (Hids i). unfold set_obj, world_ids in *. cbn [w_objs] in *.
+        rewrite Eg in Hids. cbn [obj_ids] in Hids.
+        rewrite (b_rep_ids _ _ (conj Hi (conj Hs Hle))), (b_rep_ids _ _ Hrep'), occ_app in Hids.
+        rewrite between_one, !occ_nil. lia.
+      * intro i. rewrite between_one, occ_nil. lia.
+  - (* build *)
+    rewrite (b_build_rep _ _ Hrep). destruct (length live =? b_cap b).
+    + apply post_set; auto; [exact I | apply cloned_hands |].
+      intro i. rewrite Eg, accounted_hands. cbn [obj_ids step_leak]. rewrite (b_rep_ids _ _ Hrep), !occ_nil. lia.
+    + rewrite (b_drop_rep _ _ Hrep). apply post_set; auto; [exact I | apply cloned_drops |].
+      intro i. rewrite Eg, accounted_drops. cbn [obj_ids step_leak]. rewrite (b_rep_ids _ _ Hrep), !occ_nil. lia.
+Qed.
